@@ -26,6 +26,7 @@ import (
 	"time"
 
 	erpc "github.com/henrylee2cn/erpc/v6"
+	"github.com/henrylee2cn/erpc/v6/codec"
 
 	"verif/harness/internal/hx"
 )
@@ -828,6 +829,9 @@ func c09CheckOrder(evs []c09Ev, chain []c09Pl) (string, string, c09Ev) {
 
 // ---- running one case on the real code -------------------------------------------------------------
 
+// c09AcceptPB is set by the xc09wf family (c09x.go) for the duration of one exchange.
+var c09AcceptPB bool
+
 type c09Res struct {
 	a0, aw, ar, b []c09Ev
 	areal         []c09Ev // the caller side's events in the order they really fired
@@ -875,7 +879,13 @@ func c09Exchange(kind string, bops, aops []c09Op, route int, hs int32, vb, va ma
 				path = "/c09/unregistered"
 			}
 			var out int
-			st := l.A.Call(path, &arg, &out).Status()
+			var sets []erpc.MessageSetting
+			if c09AcceptPB {
+				// the caller asks for a reply codec that cannot encode the handler's result: the first
+				// reply write fails with the connection up, the framework answers with its fallback 500
+				sets = append(sets, erpc.WithAcceptBodyCodec(codec.ID_PROTOBUF))
+			}
+			st := l.A.Call(path, &arg, &out, sets...).Status()
 			res.st = st.Code()
 		} else {
 			path, ok := rtB.pushPath[route]
